@@ -24,30 +24,13 @@ def seed():
 # known findings
 
 def load_findings():
-    p = os.path.join(HERE, 'known_findings.json')
-    if not os.path.exists(p):
-        return []
-    with open(p) as f:
-        return json.load(f).get('findings', [])
+    from . import findings
+    return findings.load()
 
 
-def match_finding(findings, prop, sig):
-    for f in findings:
-        if f.get('status') != 'open' or f.get('property') != prop:
-            continue
-        ok = True
-        for k, want in f.get('match', {}).items():
-            have = sig.get(k)
-            if isinstance(want, list):
-                if have not in want:
-                    ok = False
-                    break
-            elif have != want:
-                ok = False
-                break
-        if ok:
-            return f
-    return None
+def match_finding(findings_list, prop, sig):
+    from . import findings
+    return findings.match(prop, sig, findings_list)
 
 
 # --------------------------------------------------------------------------
